@@ -705,6 +705,17 @@ fn gen_gadget_case(c: &GenGadgetCase) -> CaseResult {
         for cell in g.cells.iter_mut() {
             cell.1 = cell.1.clamp(-1, 1);
         }
+        // (a second constraint of a gate writes one row below the first output)
+        if let Some(first) = g.cells.first_mut() {
+            first.1 = first.1.min(0);
+        }
+    }
+    // a third of the cases: every gate multiplies by a fixed coefficient column queried at the next row
+    if c.wseed % 3 == 0 {
+        kn.fixed_rot = true;
+        for g in kn.gates.iter_mut() {
+            g.sel = 3;
+        }
     }
     let spec = e1::expand(&kn);
     let max_rot = spec.gates.iter().map(|g| { let (a, b) = g.rot_range(); a.abs().max(b.abs()) }).max().unwrap_or(0);
@@ -938,7 +949,7 @@ fn main() {
         p.sub_cfg(
             "verifier-gadget.generated",
             "VerifierGadget<BlstrsEmulation> at k=18 under MockProver on honest Poseidon-transcript proofs of generated inner circuits (E1 family restricted to one phase and k <= 7: instance columns queried at rotations -1..1, committed and plain instance columns, lookups, copy constraints): satisfied with the off-circuit accumulator, not with an edited public input; every case non-trivial",
-            p.tier.pick(8, 80),
+            p.tier.pick(12, 90),
             4,
             2,
             || (vp_plonk::e1::knobs_strategy(4), any::<u64>(), 0usize..=1).prop_map(|(knobs, wseed, n_committed)| GenGadgetCase { knobs, wseed, n_committed }).boxed(),
